@@ -7,6 +7,7 @@ Definition check_by_id (id : N) (s : sx) : bool :=
   | 1%N | 6%N | 17%N => DB.DBC.check_sx s
   | 3%N => SST.SSTC.check_sx 3 s
   | 7%N => DB.C07.check_sx s
+  | 19%N => DB.C19.check_sx s
   | 8%N => SST.SSTC.check_sx 8 s
   | 9%N => SST.C09.check_sx s
   | 11%N => SST.SSTC.check_sx 11 s
